@@ -137,7 +137,7 @@ func balancerKeepsOwnCopies(r *core.Run) {
 						}
 					}
 					// leaving through the outer loop's post/header is fine
-					bad = reachesInstrAvoiding(ifb.Succs[idx], callTo(fnScanPartition), outerLatches(outer))
+					bad = reachesInstrAvoidingFrom(ifb, ifb.Succs[idx], callTo(fnScanPartition), outerLatches(outer))
 				} else {
 					// the helper reports "mine" through a boolean result: constant true on every
 					// return reachable from the self edge; the caller reaches scanPartition only on
@@ -197,6 +197,28 @@ func outerLatches(h *ssa.BasicBlock) map[*ssa.BasicBlock]bool {
 }
 
 func reachesInstrAvoiding(start *ssa.BasicBlock, pred instrPred, avoid map[*ssa.BasicBlock]bool) bool {
+	return reachesInstrAvoidingFrom(nil, start, pred, avoid)
+}
+
+// reachesInstrAvoidingFrom: an instruction matching pred can be reached from start
+// (entered over from -> start) without passing a block of avoid; path sensitive for nil
+// tests and for flags that are constants on the way taken.
+func reachesInstrAvoidingFrom(from, start *ssa.BasicBlock, pred instrPred, avoid map[*ssa.BasicBlock]bool) bool {
+	hit := pathSearchFrom(from, start, nil, nil, func(b *ssa.BasicBlock) bool {
+		if avoid[b] {
+			return false
+		}
+		for _, in := range b.Instrs {
+			if pred(in) {
+				return true
+			}
+		}
+		return false
+	}, func(_, to *ssa.BasicBlock) bool { return !avoid[to] })
+	return hit != nil
+}
+
+func reachesInstrAvoidingOld(start *ssa.BasicBlock, pred instrPred, avoid map[*ssa.BasicBlock]bool) bool {
 	seen := map[*ssa.BasicBlock]bool{}
 	var visit func(b *ssa.BasicBlock) bool
 	visit = func(b *ssa.BasicBlock) bool {
